@@ -29,6 +29,9 @@ const (
 	OpUpdateParams  = "updateParams"
 	OpDonate        = "donate" // third-party bank send to an escrow
 	OpBlock         = "block"
+	// OpReimport exports the module genesis, empties the module store and imports the genesis
+	// again (what a chain restart from an exported genesis does to the module).
+	OpReimport = "reimport"
 )
 
 // Sched is one vesting schedule entry of a create message.
@@ -331,6 +334,34 @@ func (w *World) Apply(o Op) (res Result) {
 				res.Err = err.Error()
 				return
 			}
+			res.OK = true
+		}()
+		if res.OK {
+			write()
+		}
+		return res
+	case OpReimport:
+		cc, write := w.Ctx.CacheContext()
+		func() {
+			defer recoverTo(&res)
+			gm, ok := w.B.App.ModuleManager.Modules[types.ModuleName].(genesisModule)
+			if !ok {
+				res.Err = "module has no genesis"
+				return
+			}
+			cdc := w.B.App.AppCodec()
+			raw := gm.ExportGenesis(cc, cdc)
+			st := cc.KVStore(w.B.App.GetKey(types.StoreKey))
+			var keys [][]byte
+			it := st.Iterator(nil, nil)
+			for ; it.Valid(); it.Next() {
+				keys = append(keys, append([]byte{}, it.Key()...))
+			}
+			it.Close()
+			for _, k := range keys {
+				st.Delete(k)
+			}
+			gm.InitGenesis(cc, cdc, raw)
 			res.OK = true
 		}()
 		if res.OK {
